@@ -80,6 +80,21 @@ def aim(case):
         if f['kind'] == 'text' and f['name'].startswith('rep'):
             case['mutations'].append({'target': 'file', 'op': 'ins',
                                       'i': 0, 'j': 1, 'k': k})
+    # a line that shows today's date with a two-digit year (and nothing
+    # else gentest may exclude) is compared: one character of it changes
+    texts = [(t, 0, case['cmd'][t]) for t in ('stdout', 'stderr')] + [
+        ('file', k, f.get('lines', [])) for (k, f) in enumerate(files)
+        if f['kind'] == 'text' and not f.get('long_prefix')]
+    for (t, k, lines) in texts:
+        has_today = any('{TODAY}' in ln for ln in lines)
+        ok_idx = [i for (i, ln) in enumerate(lines)
+                  if not specific(ln, has_today)]
+        for (i, ln) in enumerate(lines):
+            if '{TODAY_YY} status ok' in ln and i in ok_idx:
+                case['mutations'].append(
+                    {'target': t, 'op': 'sub', 'i': ok_idx.index(i),
+                     'j': ln.index('status ok') + 2, 'k': k})
+                break
     for t in ('stdout', 'stderr'):
         if any('cache at {HOME}' in ln for ln in case['cmd'][t]):
             case['mutations'].append({'target': t, 'op': 'home_digit',
